@@ -73,6 +73,8 @@ def run_bio(case):
         try:
             dep = alg._departure_rankings(ds, sch)
             out["dep"] = [[int(x) for x in row] for row in dep.tolist()]
+        except (AttributeError, TypeError):
+            out["dep"] = "unavailable"   # private helper renamed / re-shaped: this white-box comparison is skipped
         except Exception as exc:  # noqa: BLE001
             out["dep"] = "err:" + type(exc).__name__
         try:
